@@ -148,6 +148,8 @@ def run(ctx):
         ctx.extra['hash_iterations_seen'] += int(any_hash)
         oks = [r for r in res if r[1] == 'ok']
         ctx.vacuity_witness('purity assertions reachable', oks[0][0])
+    # ---------------------------------------------------------------- (ii') history independence under a changing environment
+    history_check(ctx, seen)
     # ---------------------------------------------------------------- concrete fixtures: twice in one state + natively across processes / threads
     fixtures = sorted(glob.glob('/repo/wgsl_to_wgpu/src/data/**/*.wgsl', recursive=True) + glob.glob('/repo/wgsl_to_wgpu/tests/wgsl/*.wgsl'))
     good_srcs = []
@@ -157,10 +159,108 @@ def run(ctx):
         if 'ok' in ctx.S.oracle.gen(src, o):
             good_srcs.append(src)
             ctx.differential(src, o)
-    rep, det = native_purity(ctx, good_srcs)
+    native(ctx, good_srcs)
+    ctx.extra['violations_by_rule'] = seen
+
+
+def native(ctx, srcs=None):
+    rep, det = native_purity(ctx, srcs)
     if rep:
         ctx.report('C18/native', f'real build is not a function of its input: {det.get("first")}', det, True, det)
-    ctx.extra['violations_by_rule'] = seen
+    rep, det = native_history(ctx, open('/repo/wgsl_to_wgpu/src/data/fragment_simple.wgsl').read())
+    ctx.sample({'native history run': det})
+    if rep:
+        ctx.report('C18/history', 'real build: the same call returns different text after another call ran under a different environment', det, True, det)
+    else:
+        ctx.replayed_ok += 1
+
+
+class FmtOut:
+    """stdout of a working formatter"""
+    empty = False
+
+    def __repr__(self):
+        return 'FormatterStdout'
+
+
+def history_check(ctx, seen):
+    """call 1 under environment e1, call 2 under environment e2 (formatter present / absent, symbolic); then the crate's global state
+    is reset and call 3 runs under e2 again: calls 2 and 3 must agree - the result may depend on the environment of THIS call only"""
+    S = ctx.S
+    src = open('/repo/wgsl_to_wgpu/src/data/fragment_simple.wgsl').read()
+    module = S.module(src)
+    env = env_passthrough(module, src)
+
+    def go(it):
+        plan = {'fixed': None}
+
+        def spawn(it_, cmd):
+            if plan['fixed'] is None:
+                okv = it_.truth(it_.fresh('formatter_present', 'bool'))
+            else:
+                okv = plan['fixed']
+            plan['last'] = okv
+            if not okv:
+                return err(Opaque('io::Error(NotFound)'))
+            return ok(Agg('Child', [Opaque('handle'), some(Opaque('ChildStdin')), some(Opaque('ChildStdout')), none()]))
+        it.env.update({'spawn': spawn, 'write_all': lambda it_, s_, d_: ok(unit()),
+                       'wait_with_output': lambda it_, c_: ok(Agg('Output', [Agg('ExitStatus', [True, some(0)]), 'STDOUT', VecV()])),
+                       'from_utf8': lambda it_, b_: ok(FmtOut())})
+        it.env['statics_touched'] = []
+        call = lambda: it.call('create_shader_module_inner', [src, none(), write_options(S.conv, rustfmt=True)])
+        a = call()
+        b = call()
+        e2 = plan['last']
+        it.statics.clear()
+        plan['fixed'] = e2
+        c_ = call()
+        return tup(a, b, c_, list(it.env['statics_touched']))
+    res = ctx.explore('create_shader_module_inner x3/history', go, env=env, anchors=['create_shader_module_inner', 'pretty_print_rustfmt'])
+
+    def shape(r):
+        if r.disc != 0:
+            return ('err', r.fields[0].variant)
+        v = r.fields[0]
+        return ('formatted',) if isinstance(v, FmtOut) else ('tokens', tuple(map(str, T.canon(v.toks))))
+    for pc, kind, out, _ in res:
+        ctx.queries['discharged'] += 1
+        if kind != 'ok':
+            raise Inconclusive(f'history harness did not return: {kind} {out}')
+        a, b, c_, touched = out.fields
+        if shape(b) == shape(c_):
+            ctx.queries['unsat'] += 1
+            continue
+        ctx.queries['sat'] += 1
+        key = 'C18/history'
+        seen[key] = seen.get(key, 0) + 1
+        if seen[key] == 1:
+            rep, det = native_history(ctx, src)
+            ctx.report(key, f'the result of a call depends on earlier calls (global state {touched}): same environment, {shape(b)[0]} after history vs {shape(c_)[0]} fresh',
+                       det, rep, det)
+    ctx.extra['statics_touched'] = sorted({t for r in res if r[1] == 'ok' for t in r[2].fields[3]})
+
+
+def native_history(ctx, src):
+    """real build, one process: A with a working formatter, B with none on PATH, A again; first and third must be identical"""
+    d = tempfile.mkdtemp(prefix='hist', dir=os.path.join(VERIF, '.cache'))
+    try:
+        good, bad = os.path.join(d, 'good'), os.path.join(d, 'bad')
+        os.makedirs(good)
+        os.makedirs(bad)
+        p = os.path.join(good, 'rustfmt')
+        open(p, 'w').write('#!/bin/sh\nt=$(/bin/mktemp)\n/bin/cat > "$t"\necho "// formatted"\n/bin/cat "$t"\n/bin/rm -f "$t"\nexit 0\n')
+        os.chmod(p, 0o755)
+        o = Oracle(env={'PATH': good})
+        other = src.replace('fs_main', 'fs_other')
+        r = o.seq([{'wgsl': src, 'options': {'rustfmt': True}, 'path': good}, {'wgsl': other, 'options': {'rustfmt': True}, 'path': bad},
+                   {'wgsl': src, 'options': {'rustfmt': True}, 'path': good}])
+        o.close()
+        outs = r.get('outputs', [])
+        det = {'steps': ['A with formatter', 'B without formatter on PATH', 'A with formatter'], 'first_equals_third': len(outs) == 3 and outs[0] == outs[2]}
+        return not det['first_equals_third'], det
+    finally:
+        import shutil
+        shutil.rmtree(d, ignore_errors=True)
 
 
 def mentions_hash(f):
@@ -203,4 +303,4 @@ def native_purity(ctx, srcs=None):
 
 
 if __name__ == '__main__':
-    sys.exit(main('C18', run))
+    sys.exit(main('C18', run, native))
